@@ -149,7 +149,8 @@ NUM_SHAPES = [("int", "dec", n, sign, lz) for n in (1, 2, 5, 10, 18, 19, 20) for
              [("int", "hex", n, sign, False) for n in (1, 2, 8, 15, 16, 17) for sign in ("", "-")] + \
              [("uint", "hex", n, "", False) for n in (1, 16, 17)]
 FLOATS = ["0.0", "1.5", "-2.5e3", "1e10", "1E-7", ".5", "5.", "0.1", "123456789.123456789", "1.7976931348623157e308", "5e-324", "-0.0",
-          "00.5", "1e+2", "9007199254740993.0", "0.30000000000000004"]
+          "00.5", "1e+2", "9007199254740993.0", "0.30000000000000004", "1e400", "-1e400", "1.7976931348623159e308", "1e-400", "0e0", "1E400",
+          "123456789012345678901234567890.0", "0.000000000000000000000000000001", "1.e2", "4.9e-324", "2.2250738585072011e-308"]
 
 
 def tasks(tier):
